@@ -35,17 +35,22 @@ type pwPath struct {
 	ret       *ssa.Return       // the root function's return (nil for panic/loop)
 	results   []ssa.Value       // resolved return operands
 	end       string            // return | panic | loop
+	loopHead  *ssa.BasicBlock   // for end == loop: the header that was re-entered
+	loopFree  bool              // ... without any undecided branch since the previous arrival (the loop cannot end)
 	consts    map[ssa.Value]constant.Value
 	alias     map[ssa.Value]ssa.Value
 	tuples    map[ssa.Value][]ssa.Value
 	mem       map[string]ssa.Value // store-to-load forwarding: address key -> last stored value on this path
 	stores    map[string]ssa.Value // every store on the path (last value per address), never invalidated
 	seed      func(*pwPath, ssa.Value) (constant.Value, bool)
+	loadHook  func(*pwPath, *ssa.UnOp) (constant.Value, bool) // consulted when a load executes and no store on this path determines it
+	unknown   map[string]bool                               // objects overwritten as a whole by a value that is not tracked
 }
 
 // addrKey is a canonical key for the address of a field of a (resolved)
 // object or of a local cell; "" when the address is not tracked.
 func (p *pwPath) addrKey(a ssa.Value) string {
+	a = p.resolve(a)
 	switch x := a.(type) {
 	case *ssa.FieldAddr:
 		return fmt.Sprintf("%p.%d", p.resolve(x.X), x.Field)
@@ -80,9 +85,13 @@ type pwState struct {
 	visits    map[*ssa.BasicBlock]int
 	inlined   map[*ssa.Function]bool
 	deferring bool
+	exiting   *ssa.BasicBlock // loop header being left (second arrival)
+	arrived   map[*ssa.BasicBlock]int // number of decisions at the latest arrival at a block
 }
 
 type pathWalker struct {
+	loadHook func(*pwPath, *ssa.UnOp) (constant.Value, bool)
+	unroll1  bool // loops: explore zero and one iteration (on re-entering a loop header the exit edge is forced)
 	seed     func(*pwPath, ssa.Value) (constant.Value, bool)
 	inline   func(caller, callee *ssa.Function) bool
 	maxPaths int
@@ -92,7 +101,11 @@ type pathWalker struct {
 }
 
 func (p *pwPath) clone() *pwPath {
-	q := &pwPath{seed: p.seed}
+	q := &pwPath{seed: p.seed, loadHook: p.loadHook}
+	q.unknown = make(map[string]bool, len(p.unknown))
+	for k, v := range p.unknown {
+		q.unknown[k] = v
+	}
 	q.decisions = append([]pwDecision(nil), p.decisions...)
 	q.events = append([]ssa.Instruction(nil), p.events...)
 	q.evDecided = append([]int(nil), p.evDecided...)
@@ -130,6 +143,10 @@ func (s *pwState) clone() *pwState {
 	for k, v := range s.visits {
 		t.visits[k] = v
 	}
+	t.arrived = make(map[*ssa.BasicBlock]int, len(s.arrived))
+	for k, v := range s.arrived {
+		t.arrived[k] = v
+	}
 	t.inlined = make(map[*ssa.Function]bool, len(s.inlined))
 	for k, v := range s.inlined {
 		t.inlined[k] = v
@@ -146,6 +163,15 @@ func (p *pwPath) resolve(v ssa.Value) ssa.Value {
 			if t, ok := p.tuples[p.resolveTuple(x.Tuple)]; ok && x.Index < len(t) {
 				v = t[x.Index]
 				continue
+			}
+		case *ssa.Field:
+			if ld, ok := p.resolve(x.X).(*ssa.UnOp); ok && ld.Op == token.MUL && i < 60 {
+				if k := p.addrKey(ld.X); k != "" {
+					if fv, ok := p.stores[fmt.Sprintf("%s.%d", k, x.Field)]; ok {
+						v = fv
+						continue
+					}
+				}
 			}
 		}
 		n, ok := p.alias[v]
@@ -241,6 +267,13 @@ func (p *pwPath) constOfD(v ssa.Value, d int) (constant.Value, bool) {
 			if bt, isB := x.Type().Underlying().(*types.Basic); isB && bt.Info()&types.IsString != 0 && a.Kind() == constant.String {
 				return a, true
 			}
+			if bt, isB := x.Type().Underlying().(*types.Basic); isB && bt.Info()&types.IsString != 0 && a.Kind() == constant.Int {
+				if n, exact := constant.Int64Val(a); exact && n >= 0 && n < 0x110000 {
+					if xb, ok := x.X.Type().Underlying().(*types.Basic); ok && xb.Info()&types.IsInteger != 0 {
+						return constant.MakeString(string(rune(n))), true
+					}
+				}
+			}
 			if bt, isB := x.Type().Underlying().(*types.Basic); isB && bt.Info()&types.IsInteger != 0 && a.Kind() == constant.Int {
 				return a, true
 			}
@@ -283,8 +316,8 @@ func (pw *pathWalker) walk(fn *ssa.Function) {
 		return
 	}
 	root := &pwFrame{fn: fn}
-	st := &pwState{frame: root, block: fn.Blocks[0], p: &pwPath{seed: pw.seed, consts: map[ssa.Value]constant.Value{}, alias: map[ssa.Value]ssa.Value{}, tuples: map[ssa.Value][]ssa.Value{}, mem: map[string]ssa.Value{}, stores: map[string]ssa.Value{}},
-		decided: map[ssa.Value]bool{}, visits: map[*ssa.BasicBlock]int{}, inlined: map[*ssa.Function]bool{fn: true}}
+	st := &pwState{frame: root, block: fn.Blocks[0], p: &pwPath{seed: pw.seed, loadHook: pw.loadHook, unknown: map[string]bool{}, consts: map[ssa.Value]constant.Value{}, alias: map[ssa.Value]ssa.Value{}, tuples: map[ssa.Value][]ssa.Value{}, mem: map[string]ssa.Value{}, stores: map[string]ssa.Value{}},
+		decided: map[ssa.Value]bool{}, arrived: map[*ssa.BasicBlock]int{}, visits: map[*ssa.BasicBlock]int{}, inlined: map[*ssa.Function]bool{fn: true}}
 	work := []*pwState{st}
 	for len(work) > 0 {
 		s := work[len(work)-1]
@@ -314,9 +347,30 @@ func (pw *pathWalker) run(s *pwState) []*pwState {
 		b := s.block
 		if s.idx == 0 {
 			s.visits[b]++
+			prevArr, seenBefore := s.arrived[b]
+			s.arrived[b] = len(s.p.decisions)
 			if s.visits[b] > 1 {
-				pw.finish(s, "loop", nil)
-				return nil
+				s.p.loopHead = b
+				s.p.loopFree = seenBefore && prevArr == len(s.p.decisions)
+				// the block's values are computed afresh in the next iteration
+				for _, ins := range b.Instrs {
+					if v, ok := ins.(ssa.Value); ok {
+						delete(s.decided, v)
+						delete(s.p.consts, v)
+						delete(s.p.alias, v)
+						delete(s.p.tuples, v)
+					}
+				}
+				if !pw.unroll1 || s.visits[b] > 2 {
+					pw.finish(s, "loop", nil)
+					return nil
+				}
+				// second arrival at a loop header: from here on every branch that can leave the loop does
+				if s.exiting != nil {
+					pw.finish(s, "loop", nil)
+					return nil
+				}
+				s.exiting = b
 			}
 			// phis: parallel assignment from the incoming edge
 			pi := -1
@@ -375,14 +429,43 @@ func (pw *pathWalker) run(s *pwState) []*pwState {
 					v := s.p.resolve(x.Val)
 					s.p.mem[k] = v
 					s.p.stores[k] = v
+					if st, ok := x.Val.Type().Underlying().(*types.Struct); ok {
+						// a whole struct is overwritten: its fields are those of the source object
+						src := ""
+						if ld, ok := v.(*ssa.UnOp); ok && ld.Op == token.MUL {
+							src = s.p.addrKey(ld.X)
+						}
+						delete(s.p.unknown, k)
+						for i := 0; i < st.NumFields(); i++ {
+							fk := fmt.Sprintf("%s.%d", k, i)
+							delete(s.p.mem, fk)
+							delete(s.p.stores, fk)
+							if src == "" || s.p.unknown[src] {
+								continue
+							}
+							if sv, ok := s.p.stores[fmt.Sprintf("%s.%d", src, i)]; ok {
+								s.p.mem[fk], s.p.stores[fk] = sv, sv
+							}
+						}
+						if src == "" || s.p.unknown[src] {
+							s.p.unknown[k] = true
+						}
+					}
 				}
 				s.p.events = append(s.p.events, ins)
 				s.p.evDecided = append(s.p.evDecided, len(s.p.decisions))
 			case *ssa.UnOp:
 				if x.Op == token.MUL {
+					hit := false
 					if k := s.p.addrKey(x.X); k != "" {
 						if v, ok := s.p.mem[k]; ok {
 							s.p.alias[x] = v
+							hit = true
+						}
+					}
+					if !hit && s.p.loadHook != nil {
+						if c, ok := s.p.loadHook(s.p, x); ok {
+							s.p.consts[x] = c
 						}
 					}
 				}
@@ -391,7 +474,7 @@ func (pw *pathWalker) run(s *pwState) []*pwState {
 					s.p.events = append(s.p.events, ins)
 					s.p.evDecided = append(s.p.evDecided, len(s.p.decisions))
 				}
-			case *ssa.MapUpdate, *ssa.Defer, *ssa.Go, *ssa.Send:
+			case *ssa.MapUpdate, *ssa.Defer, *ssa.Go, *ssa.Send, *ssa.Lookup, *ssa.IndexAddr, *ssa.Index, *ssa.Slice:
 				s.p.events = append(s.p.events, ins)
 				s.p.evDecided = append(s.p.evDecided, len(s.p.decisions))
 			case *ssa.Return:
@@ -422,6 +505,45 @@ func (pw *pathWalker) run(s *pwState) []*pwState {
 				s.pred, s.block, s.idx = b, b.Succs[0], 0
 				goto nextBlock
 			case *ssa.If:
+				if s.exiting != nil {
+					r0, r1 := blockReaches(b.Succs[0], s.exiting, false), blockReaches(b.Succs[1], s.exiting, false)
+					if r0 != r1 {
+						// exactly one edge leaves the loop: take it, and record the decision that does
+						exit := 0
+						if !r1 {
+							exit = 1
+						}
+						cond, neg := stripNot(s.p.resolve(x.Cond))
+						cond = s.p.resolve(cond)
+						c2, n2 := stripNot(cond)
+						cond, neg = c2, neg != n2
+						truth := (exit == 0) != neg
+						known := false
+						if c, ok := s.p.constOf(cond); ok && c.Kind() == constant.Bool {
+							known = true
+							if constant.BoolVal(c) != truth {
+								// the loop provably continues here: this path does not leave the loop
+								pw.finish(s, "loop", nil)
+								return nil
+							}
+						}
+						if t, ok := s.decided[cond]; ok {
+							known = true
+							if t != truth {
+								pw.finish(s, "loop", nil)
+								return nil
+							}
+						}
+						if !known {
+							s.decided[cond] = truth
+							s.p.decisions = append(s.p.decisions, pwDecision{cond: cond, truth: truth, at: x})
+						}
+						s.exiting = nil
+						s.pred, s.idx = b, 0
+						s.block = b.Succs[exit]
+						goto nextBlock
+					}
+				}
 				cond, neg := stripNot(s.p.resolve(x.Cond))
 				cond = s.p.resolve(cond)
 				c2, n2 := stripNot(cond)
@@ -463,6 +585,13 @@ func (pw *pathWalker) run(s *pwState) []*pwState {
 		return nil
 	nextBlock:
 	}
+}
+
+// walkPathsUnrolled explores every loop for zero and one iteration.
+func walkPathsUnrolled(fn *ssa.Function, seed func(*pwPath, ssa.Value) (constant.Value, bool), inline func(caller, callee *ssa.Function) bool, max int) ([]*pwPath, bool) {
+	pw := &pathWalker{seed: seed, inline: inline, unroll1: true, maxPaths: max}
+	pw.walk(fn)
+	return pw.paths, !pw.overflow
 }
 
 // walkPaths is the convenience entry.
